@@ -7,6 +7,24 @@ CHECKS = {
  "C01": dict(level="exploration", technique="runtime monitoring: differential result oracle (NumPy shadow interpreter) over generated recipes on the real executors",
    text="Every generated expression is computed by the real cubed code on real executors and its result compared element-wise with an independent NumPy evaluation; held = no disagreement on the executions listed in the evidence. Exploration is the right level: the input space is unbounded, so reach comes from generator diversity (shapes, chunkings, dtypes, compositions, executors), not enumeration.",
    note="Trusts NumPy as reference and the harness's own recipe interpreters; geometries beyond the generator's bounds and executors not installed (dask, lithops, ...) are not observed.", ref="3/C01"),
+ "C02": dict(level="exploration", technique="runtime monitoring: differential oracle (same recipe computed unoptimised vs under each optimiser setting, bit-exact) + read-back of requested arrays from storage",
+   text="Each generated DAG is executed by the real code unoptimised and under default/multiple-input/legacy/fuse-all/fuse-only optimisers with random always/never-fuse subsets; requested arrays must be bit-identical and present in storage. Held = no difference on the (recipe, optimiser) pairs listed.",
+   note="Reference is cubed's own unoptimised run (a common-mode error in both is C01's business). Memory refusals under fusion-forcing optimisers are allowed by the property and not judged.", ref="3/C02"),
+ "C05": dict(level="exploration", technique="runtime monitoring: attributed store-level trace (who wrote which chunk key) + block-write hook on zarr.Array.__setitem__, judged against the chunk grid read back from stored metadata",
+   text="Every task of every generated plan runs one at a time under a harness executor that attributes each store write to its task; monitors check one writer task per stored chunk, whole-chunk write regions, and that every chunk of every produced array's grid was written.",
+   note="Trusts the tracer's patching of zarr LocalStore/MemoryStore and zarr.Array.__setitem__ to see every write (cross-checked: chunk sets == grid size on the unchanged tree). Store targets supplied by the user are covered by C11's workload.", ref="3/C05"),
+ "C06": dict(level="fault_enumeration", technique="runtime monitoring under adversarial schedules: reversed/shuffled task order, every single duplicated task at three positions, duplicate multisets, fresh-process task execution; oracle = stored content and results of the reference schedule",
+   text="For each generated plan the schedule space {order} x {which task is repeated, where} is enumerated (exhaustively for plans <= 14 tasks, sampled above) on the real task functions; every produced stored array and every result must equal the reference schedule's, and rewrites of a chunk must carry identical bytes.",
+   note="Tasks run sequentially in the harness executor (concurrency itself is C07's subject). Intermediate data is wiped between schedules.", ref="3/C06"),
+ "C12": dict(level="exploration", technique="runtime monitoring: block-write hook (value shape vs region shape for every block written by every task) + declared-vs-computed-vs-stored metadata comparison",
+   text="All block writes of generated plans (unoptimised so that every intermediate is written, and optimised) are observed at zarr.Array.__setitem__; a value whose shape differs from its region is a silent broadcast. Declared shape/dtype/chunks are compared with the computed result and with the backing Zarr array's metadata.",
+   note="Hook sees writes in the client process (single-threaded and threads executors).", ref="3/C12"),
+ "C13": dict(level="exploration", technique="runtime monitoring: recording Callback on the real executors, judged against the finalized plan delivered with the compute-start event and len(pipeline.mappable)",
+   text="For every operation of every generated plan: advertised num_tasks == length of its task list == sum of task-end notifications; exactly one start/end per operation and per computation, in order; on single-threaded, threads (batching, compute_arrays_in_parallel) and processes.",
+   note="Callbacks are observed in the client process; executors other than the three local ones are not installed.", ref="3/C13"),
+ "C17": dict(level="exploration", technique="runtime monitoring: exception type and phase (build / plan / after executor entry, decided by a wrapping executor's entry counter) for recipes NumPy can evaluate",
+   text="Generated expressions biased to unsupported corners are built, planned and executed; any exception must be ValueError/TypeError/NotImplementedError/IndexError raised before the executor is entered. Held = no other type and no mid-run failure on the runs listed, apart from the open known finding about zero-length dimensions (half of the budget cannot reach it).",
+   note="Fault-free runs only. Exceptions with no cubed frame during recipe construction are harness errors (inconclusive).", ref="3/C17"),
 }
 
 def main():
